@@ -131,7 +131,8 @@ func (rr *renderer) operand(n *Node, req int) {
 
 // base renders the base of a postfix operator (member, index, call).
 func (rr *renderer) base(n *Node) {
-	if n.K == "num" || n.K == "match" || n.K == "regex" || Level(n) < 7 {
+	// (a numeric literal needs no parentheses: it never absorbs the member operator)
+	if (n.K == "num" && rr.mode == Full) || n.K == "match" || n.K == "regex" || Level(n) < 7 {
 		rr.p("(")
 		rr.expr(n, 0)
 		rr.p(")")
